@@ -292,6 +292,49 @@ pub fn run_purity(schema: &s::Document, docs: &[q::Document], codes: &[String]) 
             dup.definitions[n - 1] = dup.definitions[0].clone();
         }
         variants.push(dup);
+        // the arguments of the directive definitions rotated among them, the field lists of the
+        // object types rotated among them (same names, other contents)
+        {
+            let mut v = schema.clone();
+            let lists: Vec<_> = v.definitions.iter().filter_map(|d| match d { s::Definition::DirectiveDefinition(dd) => Some((dd.arguments.clone(), dd.locations.clone(), dd.repeatable)), _ => None }).collect();
+            let mut k = 0usize;
+            for d in v.definitions.iter_mut() {
+                if let s::Definition::DirectiveDefinition(dd) = d {
+                    k += 1;
+                    let (a, l, r) = lists[k % lists.len()].clone();
+                    dd.arguments = a;
+                    dd.locations = l;
+                    dd.repeatable = r;
+                }
+            }
+            variants.push(v);
+        }
+        {
+            let mut v = schema.clone();
+            let lists: Vec<_> = v.definitions.iter().filter_map(|d| match d { s::Definition::TypeDefinition(s::TypeDefinition::Object(o)) => Some((o.fields.clone(), o.implements_interfaces.clone())), _ => None }).collect();
+            let mut k = 0usize;
+            for d in v.definitions.iter_mut() {
+                if let s::Definition::TypeDefinition(s::TypeDefinition::Object(o)) = d {
+                    k += 1;
+                    let (f, i) = lists[k % lists.len()].clone();
+                    o.fields = f;
+                    o.implements_interfaces = i;
+                }
+            }
+            variants.push(v);
+        }
+        // a FRESH plan whose first schema is a variant, then used for the real schema
+        for v in variants.iter() {
+            let p2 = plan_of(codes);
+            for d in docs.iter() {
+                let _ = std::panic::catch_unwind(std::panic::AssertUnwindSafe(|| validate(v, d, &p2)));
+            }
+            for (i, d) in docs.iter().enumerate() {
+                if canon_full(&validate(schema, d, &p2)) != reference[i] {
+                    schemas_ok = false;
+                }
+            }
+        }
         let mut slot: s::Document = schema.clone();
         for v in variants {
             slot = v;
